@@ -21,6 +21,7 @@ package main
 //	hsFrameGuards         readHandshake: the ordered texts of the loop / if conditions in front of
 //	                      `c.hand.Next` / `c.handBuf.Next`
 //	recRetryGuard         retryReadRecord: `c.retryCount++` then `if c.retryCount > maxUselessRecords {…return}`
+//	recResetCond          readRecordOrCCS: the conjuncts of the condition of `if … { c.retryCount = 0 }`
 //	recLenGuard           readRecordOrCCS: `if n > maxCiphertext {…return}` before the record is taken
 //	fragReadsGuard        dtlcp readHandshake: `fragmentReads++` then `if fragmentReads > maxHandshakeFragments {…return}`
 //	                      as the first statements of the loop body
@@ -309,6 +310,28 @@ func emitParsers(e *emitter, p *pkg) {
 		}
 	}
 	e.boolean("recRetryGuard", retry)
+	// the condition under which readRecordOrCCS resets c.retryCount: its conjuncts, in order
+	var reset []string
+	if fd := p.funcs["Conn.readRecordOrCCS"]; fd != nil && fd.Body != nil {
+		ast.Inspect(fd.Body, func(n ast.Node) bool {
+			is, ok := n.(*ast.IfStmt)
+			if !ok || len(is.Body.List) != 1 || p.src(is.Body.List[0]) != "c.retryCount = 0" {
+				return true
+			}
+			var flat func(x ast.Expr)
+			flat = func(x ast.Expr) {
+				if be, ok := x.(*ast.BinaryExpr); ok && be.Op == token.LAND {
+					flat(be.X)
+					flat(be.Y)
+					return
+				}
+				reset = append(reset, p.src(x))
+			}
+			flat(is.Cond)
+			return true
+		})
+	}
+	e.strList("recResetCond", reset)
 	// --- record length guard
 	_, lenGuard := parGuardK(p, "Conn.readRecordOrCCS", re(`^n > maxCiphertext$`), re(`^c\.rawInputBuf\[:recordHeaderLen\+n\]$`))
 	e.boolean("recLenGuard", lenGuard)
